@@ -110,6 +110,24 @@ func init() {
 	intrinsics[H("vAlwaysMatch")] = func(in *Interp, fr *frame, args []Value) Value {
 		return in.fromNative(reflect.ValueOf(&struct{ A vellum.Automaton }{&vellum.AlwaysMatch{}}).Elem().Field(0))
 	}
+	intrinsics[H("vPoolDeterministic")] = func(in *Interp, fr *frame, args []Value) Value { return nil }
+	intrinsics[H("vShare")] = func(in *Interp, fr *frame, args []Value) Value {
+		cells := map[*Value]bool{}
+		maps := map[*Map]bool{}
+		reachable(args[0], cells, maps, 0)
+		for c := range cells {
+			in.ghost.shared[c] = true
+		}
+		for m := range maps {
+			in.ghost.sharedMaps[m] = true
+		}
+		in.ghost.effMon = true
+		return nil
+	}
+	intrinsics[H("vUnshare")] = func(in *Interp, fr *frame, args []Value) Value {
+		in.ghost.effMon = false
+		return nil
+	}
 	intrinsics[H("vRegister")] = func(in *Interp, fr *frame, args []Value) Value { return nil }
 	intrinsics[H("vRunSpawned")] = func(in *Interp, fr *frame, args []Value) Value {
 		in.runSpawned()
